@@ -9,7 +9,7 @@
   WHATEVER the decisions are.
 
   `ReportStats.from_suites` computes a duration `results[-1].end_time - results[0].start_time` when the report is
-  not parallelized: it raises on a forest whose last result is still in progress (`ViewErr.noneTime`, D32) and on a
+  not parallelized: it raises on a forest whose last result is still in progress (`ViewErr.noneTime`, D34) and on a
   forest without any result (`IndexError`, `ViewErr.noResults`).
   Core Lean only.
 -/
